@@ -1,6 +1,7 @@
 package checks
 
 import (
+	"net"
 	"context"
 	"fmt"
 	"sync"
@@ -305,6 +306,9 @@ func c19E2E(env *fw.Env) {
 		add(c19Case{Scenario: "dead-after-slow-reply", Active: rep%2 == 1, Threshold: 2 - rep%2, Suppress: true})
 		add(c19Case{Scenario: "chatty", Active: rep%2 == 0, Threshold: 2, Suppress: true})
 		add(c19Case{Scenario: "withheld-reply", Active: rep%2 == 1, Threshold: 1, Suppress: true})
+		// a reply-expecting send that FAILED at the socket on an earlier connection is not an outstanding reply
+		add(c19Case{Scenario: "dead-after-failed-send", Active: rep%2 == 0, Threshold: 1 + rep%2, Suppress: true})
+		add(c19Case{Scenario: "dead-after-failed-send", Active: rep%2 == 1, Threshold: 2, Suppress: true})
 	}
 	for _, cs := range cases {
 		if !env.Mine(cs.Index) || !env.Want(cs.Index) {
@@ -338,10 +342,26 @@ func c19One(env *fw.Env, cs c19Case) {
 	if cs.Scenario == "dead-after-slow-reply" {
 		t3 = 15 * time.Second
 	}
-	rg, err := newRig(rigOpts{Active: cs.Active, T3: t3, T6: t6, Linktest: interval, LinktestFails: cs.Threshold, Suppress: &sup})
+	ro := rigOpts{Active: cs.Active, T3: t3, T6: t6, Linktest: interval, LinktestFails: cs.Threshold, Suppress: &sup}
+	if cs.Scenario == "dead-after-failed-send" {
+		ro.WriteTimeout, ro.T5, ro.BackoffInit = 150*time.Millisecond, 30*time.Millisecond, 5*time.Millisecond
+	}
+	rg, err := newRig(ro)
 	if err != nil {
 		env.Discard()
 		return
+	}
+	var gmu sync.Mutex
+	var gates []*peer.GateConn
+	if cs.Scenario == "dead-after-failed-send" {
+		rg.Trk.Wrap = func(c net.Conn) net.Conn {
+			g := peer.NewGateConn(c)
+			gmu.Lock()
+			gates = append(gates, g)
+			gmu.Unlock()
+
+			return g
+		}
 	}
 	fail := func(key, msg string) { env.Violate(key, msg, cs) }
 	var probes atomic.Int64
@@ -677,6 +697,52 @@ func c19One(env *fw.Env, cs c19Case) {
 			fail("dead-peer-probe-count-after-slow-reply", fmt.Sprintf("the peer saw %d Linktest.req after its last frame before the close, threshold is %d", n, cs.Threshold))
 		} else {
 			env.Event("dead_peer_dropped_in_time_after_slow_reply", 1)
+		}
+	case "dead-after-failed-send":
+		// generation 1: the socket stops taking bytes, a W-bit send runs into the write timeout and fails, the link is
+		// re-established. Generation 2: the peer answers one probe and then dies. Nothing is outstanding (the failed
+		// send returned an error long ago): the dead peer must be dropped after the threshold like any other.
+		gmu.Lock()
+		for _, g := range gates {
+			g.BlockWrites(true)
+		}
+		gmu.Unlock()
+		ctx, cancel := context.WithTimeout(context.Background(), 5*time.Second)
+		_, serr := rg.Conn.SendDataMessage(ctx, 1, 1, true, secs2.A("into a socket that takes no bytes"))
+		cancel()
+		if serr == nil {
+			env.Note("scenario %d: the send into the gated socket did not fail; premise not met", cs.Index)
+			env.Discard()
+			return
+		}
+		if !pc.WaitClosed(10 * time.Second) {
+			env.Note("scenario %d: generation 1 not dropped after the write failure (%v)", cs.Index, serr)
+			env.Discard()
+			return
+		}
+		pc2, _, err := rg.NextGenRetry(onFrame, 6)
+		if err != nil {
+			env.Note("scenario %d: second generation: %v", cs.Index, err)
+			env.Discard()
+			return
+		}
+		defer pc2.Close()
+		base := probes.Load()
+		if !waitFor(10*time.Second, func() bool { return probes.Load() > base }) {
+			fail("no-probe-after-failed-send", fmt.Sprintf("an idle Selected session (interval %v) saw no Linktest.req for 10 s on the connection that followed a failed W-bit send (send error: %v; in-flight gauge %d)", interval, serr, rg.Conn.Metrics().DataMsgInflightCount()))
+			return
+		}
+		mode.Store(1)
+		dead := time.Now()
+		bound := interval + time.Duration(cs.Threshold+1)*(interval+t6) + 3*time.Second
+		if !pc2.WaitClosed(bound + 10*time.Second) {
+			fail("dead-peer-not-dropped-after-failed-send", fmt.Sprintf("threshold %d: %v after the peer went silent the link is still up (in-flight gauge %d, nothing is outstanding: the only W-bit send failed with %v on the previous connection)", cs.Threshold, bound+10*time.Second, rg.Conn.Metrics().DataMsgInflightCount(), serr))
+			return
+		}
+		if el := time.Since(dead); el > bound {
+			fail("dead-peer-dropped-late-after-failed-send", fmt.Sprintf("threshold %d: dropped %v after the peer went silent; about (threshold+1) x (interval %v + T6 %v) is prescribed", cs.Threshold, el.Round(time.Millisecond), interval, t6))
+		} else {
+			env.Event("dead_peer_dropped_after_failed_send", 1)
 		}
 	case "withheld-reply":
 		var wg sync.WaitGroup
